@@ -671,6 +671,8 @@ def _gi_samples():
             "mirrored_subpixel": Affine.translation(60.4, 3.7) * Affine.scale(-1, 1),
             "mirrored_y_scaled": Affine.translation(2.0, 45.5) * Affine.scale(1.3, -1.3),
             "touching": Affine.translation(64, 0),
+            "overhang_left_top": Affine.translation(-30, -25),  # the destination's first tile row / column lies wholly outside the source
+            "overhang_left_top_subpixel_x2": Affine.translation(-45.5, -33.25) * Affine.scale(2.0),
             "disjoint": Affine.translation(300, 300),
             "disjoint_rot": Affine.translation(400, -300) * Affine.rotation(10.0),
         }
@@ -691,7 +693,7 @@ def _gi_samples():
         for oname, sg in (("north_up", coarse), ("flipx", coarse.flipx()), ("flipy", coarse.flipy()), ("rot180", coarse.flipx().flipy())):
             yield dict(self=GeoboxTiles(fine, (32, 32)), src=GeoboxTiles(sg, (5, 5)), kind=f"coarse-src-{oname}")
 
-    return "36 same-CRS pairs (aligned, sub-pixel, scaled, rotated, mirrored + sub-pixel, mirrored + x1.3, touching, disjoint) x 2x2 tilings + 6 cross-CRS pairs (overlapping, partly, disjoint) + 4 coarse-source / fine-destination cross-CRS pairs (source north-up, mirrored in x, in y, both)", gen()
+    return "44 same-CRS pairs (aligned, sub-pixel, scaled, rotated, mirrored + sub-pixel, mirrored + x1.3, touching, overhanging the source by whole tiles on the left / top, disjoint) x 2x2 tilings + 6 cross-CRS pairs (overlapping, partly, disjoint) + 4 coarse-source / fine-destination cross-CRS pairs (source north-up, mirrored in x, in y, both)", gen()
 
 
 def _gi_post(self, src, kind, result):
